@@ -363,7 +363,7 @@ def run(ctx):
                 reader_case(lens, layout, tif, 20, False)
 
     # ---- (3) the real writer ----
-    for _ in range(ctx.pick(400, 3000)):
+    for wi in range(ctx.pick(400, 3000)):
         nrec = rng.choice([1, 2, 4, 12])
         rn, fn, ck = rng.choice([(0, 0, 0), (1, 0, 0), (0, 1, 0), (0, 0, 1), (1, 1, 1), (1, 1, 0)])
         taillen = 2 * (rn + fn + ck)
@@ -373,6 +373,13 @@ def run(ctx):
                             rng.randint(2, 300)]) for _ in range(nrec)]
         lens = [max(2, min(L, 3000 if maxpr > 8 else 40)) for L in lens]
         tif = rng.choice(['none', 'le'])
+        if wi == 0 or (not ctx.quick and wi == 1):
+            # more physical records than the 16-bit record number of the trailer can count: it wraps to 0 after 65535
+            rn, fn, ck = 1, wi, 0
+            taillen = 2 * (rn + fn + ck)
+            maxpr = 4 + taillen + 1
+            lens = [40000, 26000, 100]
+            tif = 'none' if wi == 0 else 'le'
         pays = [G.payload(k + 1, L) for k, L in enumerate(lens)]
         tr = []
         fnval = rng.choice([0, 0, 1, 3, 255, 9999])          # file number 0 is the legal minimum
